@@ -46,6 +46,7 @@ type Case struct {
 	Ops       []Op           `json:"ops,omitempty"`
 	Ints      []int          `json:"ints,omitempty"`
 	Strs      []string       `json:"strs,omitempty"`
+	Twin      string         `json:"twin,omitempty"` // a near-identical path handed to the library right before the case's own
 	DocKind   string         `json:"doc_kind,omitempty"`
 	Prefix    []PrefixCall   `json:"prefix,omitempty"` // Parse calls made in the process right before the case (replayed first)
 	Note      string         `json:"violation,omitempty"`
@@ -62,14 +63,17 @@ type PrefixCall struct {
 	PathRaw  []byte `json:"path_raw,omitempty"`
 	Funcs    bool   `json:"funcs,omitempty"`
 	Accessor bool   `json:"accessor,omitempty"`
+	Retrieve bool   `json:"retrieve,omitempty"` // the call went through Retrieve (on a null document when replayed)
 }
 
 var recentCalls []PrefixCall
 
 const recentCallsMax = 8
 
-func noteParse(path string, funcs, accessor bool) {
-	pc := PrefixCall{Path: path, Funcs: funcs, Accessor: accessor}
+func noteParse(path string, funcs, accessor bool) { noteParseVia(path, funcs, accessor, false) }
+
+func noteParseVia(path string, funcs, accessor, retrieve bool) {
+	pc := PrefixCall{Path: path, Funcs: funcs, Accessor: accessor, Retrieve: retrieve}
 	if !utf8.ValidString(path) {
 		pc.PathRaw = []byte(path)
 	}
@@ -85,9 +89,14 @@ func replayPrefix(prefix []PrefixCall) {
 		if len(pc.PathRaw) > 0 {
 			path = string(pc.PathRaw)
 		}
-		if !pc.Funcs && !pc.Accessor {
+		switch {
+		case pc.Retrieve && !pc.Funcs && !pc.Accessor:
+			_, _ = jsonpath.Retrieve(path, nil)
+		case pc.Retrieve:
+			_, _ = jsonpath.Retrieve(path, nil, BuildConfig(nil, pc.Funcs, pc.Accessor))
+		case !pc.Funcs && !pc.Accessor:
 			_, _ = jsonpath.Parse(path)
-		} else {
+		default:
 			_, _ = jsonpath.Parse(path, BuildConfig(nil, pc.Funcs, pc.Accessor))
 		}
 	}
@@ -172,6 +181,10 @@ func BuildConfigOrder(rec *Recorder, funcs, accessor, accessorFirst bool) jsonpa
 					rec.inside = false
 				}
 				out, err := gen.ApplyFilter(name, v)
+				if name == "fnest" {
+					// a user function that runs a JSONPath of its own and hands the inner error on as it is
+					out, err = nestedFirst("$.a", v, out, err)
+				}
 				if rec != nil {
 					rec.add(name, v, err != nil)
 				}
@@ -182,6 +195,9 @@ func BuildConfigOrder(rec *Recorder, funcs, accessor, accessorFirst bool) jsonpa
 			name := name
 			cfg.SetAggregateFunction(name, func(vs []interface{}) (interface{}, error) {
 				out, err := gen.ApplyAggregate(name, vs)
+				if name == "gnest" {
+					out, err = nestedFirst("$[1]", append([]interface{}{}, vs...), out, err)
+				}
 				if rec != nil {
 					rec.add(name, append([]interface{}{}, vs...), err != nil)
 				}
@@ -193,6 +209,22 @@ func BuildConfigOrder(rec *Recorder, funcs, accessor, accessorFirst bool) jsonpa
 		cfg.SetAccessorMode()
 	}
 	return cfg
+}
+
+// nestedFirst evaluates path on v with the library itself (config-less Retrieve: the inner call
+// takes whatever locks and pooled buffers an outer evaluation is holding) and returns the first
+// value, or the inner retrieval's own error value unchanged. pureOut / pureErr are what the
+// catalogue semantics say; if the inner retrieval disagrees about success the pure outcome wins
+// (the disagreement itself is some other check's business) so that SPEC stays the reference.
+func nestedFirst(path string, v interface{}, pureOut interface{}, pureErr error) (interface{}, error) {
+	res, err := jsonpath.Retrieve(path, v)
+	if err != nil && pureErr != nil {
+		return nil, err // the library's own ErrorMemberNotExist / ErrorTypeUnmatched value
+	}
+	if err == nil && pureErr == nil && len(res) == 1 {
+		return res[0], nil
+	}
+	return pureOut, pureErr
 }
 
 // ---------------------------------------------------------------------------------------
